@@ -212,7 +212,8 @@ def run_lines(ctx, exe, lines):
             break
         if r.returncode == 0:
             raise vlib.MachineryError('driver skipped input line %r' % lines[start + len(got)])
-        deaths.append((start + len(got), r.stderr[-1500:]))
+        keyl = [l.strip() for l in r.stderr.splitlines() if 'ERROR:' in l or 'SUMMARY:' in l or 'assertion failed' in l.lower()]
+        deaths.append((start + len(got), ' | '.join(keyl[:3])[:600] or r.stderr[-600:]))
         if len(deaths) > 5:
             break
         start += len(got) + 1
